@@ -12,3 +12,7 @@ using namespace PyImath::detail;
 typedef FixedArray<int> IA;
 WRAP void w_apply_iadd (IA* a, const IA* b)
 { W_TRY VectorizedVoidMaskableMemberFunction1<op_iadd<int, int>, void (int&, const int&)>::apply (*a, *b); W_CATCH }
+#ifdef VERIF_NATIVE
+// native replay runs without an interpreter: leaving/re-entering Python (GIL release) is a no-op there, as it is in the model
+namespace PyImath { PyReleaseLock::PyReleaseLock () {} PyReleaseLock::~PyReleaseLock () {} }
+#endif
